@@ -17,7 +17,9 @@ from lib import exprs as E, exprgen as G, exprcheck as X
 
 THEOREMS = ["Claripy.Props.C07.C07_handle_unelim", "Claripy.Props.C07.C07_handle_reloc", "Claripy.Props.C07.C07_build",
             "Claripy.Props.C07.C07_simplify", "Claripy.Props.C07.C07_frontend_simplify", "Claripy.Props.C07.hfold_spec",
-            "Claripy.Props.C07.relocateFrom_spec", "Claripy.Props.C07.mkNode_contract"]
+            "Claripy.Props.C07.relocateFrom_spec", "Claripy.Props.C07.mkNode_contract",
+            "Claripy.Props.C07.C07_carrier_kept_partial", "Claripy.Props.C07.C07_carrier_shared_removed",
+            "Claripy.Props.C07.C07_carrier_moved_accepted", "Claripy.Anno.handle_topOnly", "Claripy.Anno.unelim_carrier"]
 
 
 class Keep(claripy.Annotation):
@@ -152,12 +154,31 @@ def srt(s):
 
 class Gen:
     def __init__(self, rng, p=0.25):
-        self.rng, self.p, self.ctr = rng, p, 0
+        self.rng, self.p, self.ctr, self.recent = rng, p, 0, []
 
     def anno(self):
+        # one annotation object is often put on several nodes (a taint / region label): reuse a recent one now and then
+        if self.recent and self.rng.random() < 0.25:
+            return self.rng.choice(self.recent)
         self.ctr += 1
         k = self.rng.random()
-        return Keep(self.ctr) if k < 0.35 else Reloc(self.ctr) if k < 0.65 else Elim(self.ctr) if k < 0.9 else Avoid(self.ctr)
+        an = Keep(self.ctr) if k < 0.35 else Reloc(self.ctr) if k < 0.65 else Elim(self.ctr) if k < 0.9 else Avoid(self.ctr)
+        self.recent = (self.recent + [an])[-4:]
+        return an
+
+    def reannotate(self, r):
+        """the other ways of changing the annotations of a node: remove one, replace all, add-and-remove"""
+        k = self.rng.random()
+        if not r.annotations:
+            return r
+        if k < 0.35:
+            return r.remove_annotation(self.rng.choice(r.annotations))
+        if k < 0.6:
+            keep = tuple(an for an in r.annotations if self.rng.random() < 0.5)
+            return r.replace_annotations((*keep, self.anno()))
+        if k < 0.85:
+            return r.annotate(self.anno(), remove_annotations=(self.rng.choice(r.annotations),))
+        return r.remove_annotations(tuple(an for an in r.annotations if self.rng.random() < 0.5))
 
     def build(self, t, log):
         r = E.build_leaf(t)
@@ -169,6 +190,15 @@ class Gen:
             r = r.annotate(self.anno())
             if self.rng.random() < 0.2:
                 r = r.annotate(self.anno())
+            if self.rng.random() < 0.25:
+                r = self.reannotate(r)
+        elif t[0] != "int" and self.rng.random() < 0.05:
+            # label the node with an annotation that already sits further down, then take it off the node again
+            below = sorted(all_unelim(r), key=repr)
+            if below:
+                k = self.rng.choice(below)
+                r = r.annotate(k, self.anno())
+                r = r.remove_annotation(k) if self.rng.random() < 0.7 else r.annotate(self.anno(), remove_annotations=(k,))
         return r
 
 
@@ -189,14 +219,26 @@ def run(ctx):
     cache_lines, cache_expect = [], []
     h_lines, h_expect = [], []
     seen_cache = set()
-    for i in range(n):
-        name, tree = G.rule_directed(rng) if rng.random() < 0.7 else G.random_tree(rng)
-        dist[name] += 1
+    # corpus first: the two witnesses of the Lean theorems C07_carrier_shared_removed (open finding: must still be what the
+    # code does, else the finding is stale) and C07_carrier_moved_accepted (repaired: must be skipped now)
+    x8, y8 = claripy.BVS("cx", 8, explicit_name=True), claripy.BVS("cy", 8, explicit_name=True)
+    k1, k2 = Keep(900001), Keep(900002)
+    corpus = [("corpus.shared", "and", [(x8 | y8).annotate(k1), claripy.BVV(255, 8).annotate(k1)]),
+              ("corpus.moved", "sub", [(x8 + y8 + 1).annotate(k2), claripy.BVV(2, 8)]),
+              ("corpus.moved2", "sub", [(x8 + 1).annotate(k2), claripy.BVV(2, 8)])]
+    for i in range(-len(corpus), n):
         log = []
-        try:
-            a = g.build(tree, log)
-        except Exception:
-            continue
+        if i < 0:
+            name, op_, args_ = corpus[i + len(corpus)]
+            log.append((op_, args_, E.apply_op(op_, args_)))
+            a = log[0][2]
+        else:
+            name, tree = G.rule_directed(rng) if rng.random() < 0.7 else G.random_tree(rng)
+            try:
+                a = g.build(tree, log)
+            except Exception:
+                continue
+        dist[name] += 1
         for op, args, r in log:
             ctx.count()
             aa = [x for x in args if isinstance(x, claripy.ast.Base)]
@@ -217,9 +259,18 @@ def run(ctx):
             # an annotation that merely reappears on a different, rewritten node has been relocated although it is not relocatable
             bmemo = {}
             kept = keepers(r, bmemo)
-            gone = [x for a_ in aa for h_, x in keepers(a_, bmemo).items() if h_ not in kept]
+            argk = {}
+            for a_ in aa:
+                argk.update(keepers(a_, bmemo))
+            gone = [x for h_, x in argk.items() if h_ not in kept]
             if gone:
-                ctx.violation("C07/%s/annotated-subexpression-removed" % op.split(":")[0],
+                # two ways for the annotation to stay reachable although its carrier went: it sits on a NEW expression (moved
+                # although not relocatable), or the same annotation object also sits on another node that survived
+                moved = {an for (b_, an) in kept if (b_, an) not in argk}
+                first = [x for x in gone if moved & set(x.annotations)] or gone
+                gone = first
+                ctx.violation(("C07/%s/annotated-subexpression-removed" % op.split(":")[0]) if moved & set(gone[0].annotations)
+                              else "C07/_handle_annotations/carrier-removed-while-same-annotation-survives-elsewhere",
                               "%s%s built %r: the sub-expression %r carrying %s is not part of the result" % (
                                   op, [repr(x) for x in args], r, gone[0], srt({an for an in gone[0].annotations if not an.eliminatable and not an.relocatable})),
                               {"op": op, "args": [aexpr(x) for x in aa], "result": aexpr(r), "removed": aexpr(gone[0]), "template": name,
